@@ -191,13 +191,18 @@ fn check<S: Shape>(ctx: &mut Ctx, shape: S, st: StyleD) {
 }
 
 fn style_at(i: u64, widths: u64) -> (StyleD, u64) {
-    let presence = i % 4;
-    let width = ((i / 4) % widths) as u32;
-    let align = ((i / (4 * widths)) % 3) as u8;
-    (
-        StyleD { fill: if presence & 1 == 1 { Some(1) } else { None }, stroke: if presence & 2 == 2 { Some(2) } else { None }, width, align, dotted: false },
-        i / (12 * widths),
-    )
+    // presence: none, fill, stroke, both in different colours, both in the same colour
+    let presence = i % 5;
+    let width = ((i / 5) % widths) as u32;
+    let align = ((i / (5 * widths)) % 3) as u8;
+    let (fill, stroke) = match presence {
+        0 => (None, None),
+        1 => (Some(1), None),
+        2 => (None, Some(2)),
+        3 => (Some(1), Some(2)),
+        _ => (Some(2), Some(2)),
+    };
+    (StyleD { fill, stroke, width, align, dotted: false }, i / (15 * widths))
 }
 
 fn pos(rng: &mut Rng) -> Point {
@@ -207,14 +212,14 @@ fn pos(rng: &mut Rng) -> Point {
 fn main() {
     main_with("c06", "exploration", |run: &Run| {
         run.set_rule(
-            "Rectangle, Circle, Ellipse, RoundedRectangle x all sizes 0..=N (w and h independently) x stroke widths 0..=W (also wider than the shape, so that the fill area collapses) x 3 alignments x {none, fill, stroke, both}; \
+            "Rectangle, Circle, Ellipse, RoundedRectangle x all sizes 0..=N (w and h independently) x stroke widths 0..=W (also wider than the shape, so that the fill area collapses) x 3 alignments x {none, fill, stroke, both in different colours, both in the same colour}; \
              rounded rectangles with equal radii (exhaustive small) and random unequal/oversized radii. Each case compares draw() on two targets and pixels() with the map predicted from fill_area()/stroke_area().contains(). \
              Non-trivial = at least one point lies in an area and a colour is set; distinct = distinct (shape, style).",
         );
         run.assume("Solid stroke style only (the statement's domain)");
         let (n, widths) = run.tier((12u64, 14u64), (28u64, 30u64));
         let sizes = (n + 1) * (n + 1);
-        let styles = 12 * widths;
+        let styles = 15 * widths;
         run.generate("rectangle", sizes * styles, true, 0.2, |ctx, idx, rng| {
             let (st, rest) = style_at(idx, widths);
             let (w, h) = ((rest % (n + 1)) as u32, (rest / (n + 1)) as u32);
